@@ -83,6 +83,12 @@ def dec(j, undef=None):
     if "d" in j: return {k: dec(x, undef) for k, x in j["d"]}
     if "o" in j: return make_obj(j["o"], [(k, dec(x, undef)) for k, x in j["a"]])
     if "x" in j:
+        if j.get("foreign"):
+            # an exception that is NOT a library error but renders itself (`coerce_value`), without path / locations attributes
+            class ForeignCoercible(Exception):
+                def __init__(self, m): super().__init__(m); self.m = m
+                def coerce_value(self, *a, **k): return {"message": self.m, "path": None, "locations": []}
+            return ForeignCoercible(j["m"])
         if j.get("multi"):
             # the library's own aggregate exception with NO member: must behave like any other exception value
             # (the model treats it as a plain exception with an empty message)
